@@ -629,7 +629,36 @@ impl ProtoMachine {
     /// into the ledger (Revoked) and into `so.disclosed`.  Returns the outcome and what was seen
     /// (a signature is attributed by the caller, which knows the requested number).
     fn exchange(&mut self, i: usize, to: To, name: &'static str, msg: Message, so: &mut StepOut) -> (Out<()>, Seen) {
+        // which commitment number the point in the reply belongs to
+        let point_num: Option<u64> = match (&to, &msg) {
+            (To::Chan(c), Message::ValidateCommitmentTx(m)) if *c == self.ci => Some(m.commitment_number + 1),
+            (To::Chan(c), Message::ValidateCommitmentTx2(m)) if *c == self.ci => Some(m.commitment_number + 1),
+            (To::Chan(c), Message::RevokeCommitmentTx(m)) if *c == self.ci => m.commitment_number.checked_add(2),
+            (To::Chan(c), Message::GetPerCommitmentPoint(m)) if *c == self.ci => Some(m.commitment_number),
+            (To::Chan(c), Message::GetPerCommitmentPoint2(m)) if *c == self.ci => Some(m.commitment_number),
+            _ => None,
+        };
         let r = self.w.request(to, msg);
+        if let (Out::Ok(rep), Some(n)) = (&r, point_num) {
+            let a = rep.as_any();
+            let p: Option<[u8; 33]> = if let Some(x) = a.downcast_ref::<msgs::ValidateCommitmentTxReply>() {
+                Some(x.next_per_commitment_point.0)
+            } else if let Some(x) = a.downcast_ref::<msgs::RevokeCommitmentTxReply>() {
+                Some(x.next_per_commitment_point.0)
+            } else if let Some(x) = a.downcast_ref::<msgs::GetPerCommitmentPointReply>() {
+                Some(x.point.0)
+            } else if let Some(x) = a.downcast_ref::<msgs::GetPerCommitmentPoint2Reply>() {
+                Some(x.point.0)
+            } else {
+                None
+            };
+            if let Some(p) = p {
+                let want = self.w.chans[self.ci].holder_point(&self.w.secp, n).serialize();
+                if p != want && so.point_mismatch.is_none() {
+                    so.point_mismatch = Some(format!("{} (protocol v{}): the reply carries {} as per-commitment point {} but the channel's point {} is {}", name, self.w.version, hex::encode(p), n, n, hex::encode(want)));
+                }
+            }
+        }
         so.notes.push(format!("msg:v{}:{}:{}", self.w.version, name, r.tag()));
         match r {
             Out::Ok(rep) => {
